@@ -458,3 +458,7 @@ M("C04", "C04-JIT", PYX, "            self.Binv[n, n] = self.s_ivar[n]\n", "    
 M("C04", "C04-KEPLER", PYX, "                            P, 1., e, om, M0, self.t0,\n                            anomaly_tol, anomaly_maxiter)", "                            P, 2., e, om, M0, self.t0,\n                            anomaly_tol, anomaly_maxiter)", "unit-amplitude column scaled by two in the test hook")
 M("C04", "C04-IO", SM, "                        tbl.meta[\"__t_ref_bmjd\"], format=\"mjd\", scale=\"tcb\"\n", "                        tbl.meta[\"__t_ref_bmjd\"], format=\"mjd\"\n", "FITS epoch read back without the TCB scale (seeded C04-B)")
 T("C19", SA, "    T = data.t.jd.max() - data.t.jd.min()\n", "    T = data._t_bmjd[-1] - data._t_bmjd[0]\n", "baseline from the ends of the time-sorted array")
+M("C02", "C02-API", TJ, "                max_posterior_samples=max_posterior_samples,\n                n_linear_samples=n_linear_samples,\n                return_all_logprobs=return_all_logprobs,\n            )", "                n_linear_samples=n_linear_samples,\n                return_all_logprobs=return_all_logprobs,\n            )", "in-memory rejection ignores max_posterior_samples")
+M("C03", "C03-API", TJ, "                max_posterior_samples=max_posterior_samples,\n                n_linear_samples=n_linear_samples,\n                return_logprobs=return_logprobs,\n", "                max_posterior_samples=max_posterior_samples,\n                return_logprobs=return_logprobs,\n", "file path ignores n_linear_samples")
+M("C02", "C02-TRUNC", LH, "        max_posterior_samples = len(prior_samples_batch)\n", "        max_posterior_samples = len(prior_samples_batch) - 1\n", "default limit drops the last accepted sample")
+M("C01", "C01-", LH, "    if prior_samples_batch.dtype != np.float64:\n        prior_samples_batch = prior_samples_batch.astype(np.float64)\n\n    # memoryview is returned\n", "    prior_samples_batch = prior_samples_batch.astype(np.float32).astype(np.float64)\n\n    # memoryview is returned\n", "packed batch rounded to single precision")
